@@ -81,9 +81,19 @@ def classify(insn, isa) -> str:
     return "op"
 
 
+# private-label prefixes of the module being projected (PE/IA32 uses "L"; the runner sets this
+# per case before rendering)
+TEMP_PREFIXES = (".L", "$")
+
+
+def set_isa(isa: str) -> None:
+    global TEMP_PREFIXES
+    TEMP_PREFIXES = (".L", "$", "L") if isa == "ia32" else (".L", "$")
+
+
 def base_name(name: str) -> str:
     """Temporary labels (.L*) lose their per-patch numeric suffix."""
-    if name.startswith(".L") or name.startswith("$"):
+    if name.startswith(TEMP_PREFIXES):
         return SUFFIX_RE.sub("", name)
     return name
 
